@@ -43,7 +43,7 @@ def leapday_weather(job):
 
 
 WIDE_TAGS = {"c08": ["crews", "workday", "weather", "freq", "months", "years", "sims"],
-             "c10": ["crews", "workday", "cost", "repairs", "freq", "months", "years", "sims", "economics"]}
+             "c10": ["crews", "workday", "cost", "repairs", "fractional", "freq", "months", "years", "sims", "economics"]}
 
 
 def shortage_shape(cfg):
@@ -58,6 +58,43 @@ def shortage_shape(cfg):
     cfg["methods"]["OGI"].update({"survey_time": 420, "max_workday": 8, "t_bw_sites": [30.0], "consider_daylight": False,
                                   "surveys_per_year": 24, "crew_count": 1, "months": list(range(1, 13))})
     cfg["methods"]["OGI"]["cost"]["upfront"] = 512.0
+
+
+def nan_weather(job):
+    """pre-run hook (worker process) honouring the configuration key `weather_nan` = {"prob": p}: keeps
+    the configuration's weather but makes one of temperature / wind / precipitation a MISSING value (NaN,
+    as merged or cropped reanalysis files carry) at a pseudo-random share p of the (day, cell) pairs"""
+    import random as _r
+    from harness import shim
+
+    spec = job["cfg"].get("weather_nan")
+    if not spec:
+        return
+    base = shim.WEATHER["fn"]
+    seed = job["cfg"].get("weather_seed", 0)
+    nan = float("nan")
+
+    def fn(doy, i, j):
+        v = list(base(doy, i, j) if base is not None else (15.0, 1.0, 0.0))
+        r = _r.Random(seed * 7919 + doy * 131 + i * 17 + j)
+        if r.random() < spec["prob"]:
+            v[r.randrange(3)] = nan
+        return tuple(v)
+
+    shim.set_weather(fn)
+
+
+def prev_with(cfg, kind):
+    """`wholerun.prev_variant` for a chosen `what_differs`"""
+    for k in range(400):
+        prev, what = W.prev_variant(cfg, random.Random(k))
+        if what == kind and prev != {x: cfg[x] for x in prev if x in cfg}:
+            return prev, what
+    return W.prev_variant(cfg, random.Random(0))
+
+
+HISTORY_KINDS = {"c08": ["surveys-per-year", "site-count", "period-start", "months", "coverage", "n-sims"],
+                 "c10": ["per-site-cost", "site-count", "repair-delay", "period-end", "n-sims", "duration"]}
 
 
 def make_cfgs(ctx, n, flavour):
@@ -96,6 +133,11 @@ def make_cfgs(ctx, n, flavour):
             cfg["methods"]["OGI"]["cost"]["upfront"] = 512.0
             cfg["methods"]["OGI"]["crew_count"] = 2
             cfg["programs"] = cfg["programs"] + [{"name": "P_OGI_again", "methods": ["OGI"]}]
+        if flavour == "c08" and k == 1:
+            # missing values in the weather file: NaN at a share of the (day, cell) pairs
+            cfg["consider_weather"] = True
+            cfg["weather_nan"] = {"prob": 0.2}
+            cfg["pre_run_hook"] = "harness.props._crew_wholerun:nan_weather"
         if k == 1 or (not ctx.quick and k % 4 == 3):
             # a genuine crew shortage: LDAR-Sim's own estimate for OGI is 2 crews (24 sites x 24 surveys a
             # year x 450 min a visit / (365 x 450 min a day)), the operator owns ONE
@@ -119,6 +161,24 @@ def make_cfgs(ctx, n, flavour):
         w["_verif_seed"] = seed
         w["_wide"] = True
         cfgs.append(w)
+    # "history": the folder was used by an earlier run whose configuration differs in ONE defining leaf; all
+    # oracles are applied to the second run against ITS configuration (generated sites / costs / emissions
+    # of the earlier run must not leak into it)
+    for k in range(ctx.pick(1, 4)):
+        seed = ctx.rng.randrange(1 << 30)
+        rng = random.Random(seed)
+        h = W.make_config(rng, ndays=rng.choice([90, 120]), consider_weather=(flavour == "c08"))
+        h["methods"]["OGI"]["cost"].update({"per_day": 0.0, "per_site": rng.choice([100.0, 256.0])})
+        prev, what = prev_with(h, HISTORY_KINDS[flavour][k % len(HISTORY_KINDS[flavour])])
+        h["_verif_seed"] = seed
+        h["_history"] = {"prev": prev, "what": what}
+        cfgs.append(h)
+    if not ctx.quick:
+        # more than one batch of five simulations, the last batch partial
+        seed = ctx.rng.randrange(1 << 30)
+        b = W.make_config(random.Random(seed), ndays=60, wide=["sims-batch"], consider_weather=(flavour == "c08"))
+        b["_verif_seed"], b["_wide"] = seed, True
+        cfgs.append(b)
     # a 1- or 2-day period (first day = last day: upfront, budget and weather on the very first day)
     seed = ctx.rng.randrange(1 << 30)
     rng = random.Random(seed)
@@ -151,6 +211,8 @@ def run_cfgs(ctx, cfgs):
     with concurrent.futures.ThreadPoolExecutor(max_workers=workers) as ex:
         def one(c):
             mode = c.get("_mode", {"debug": True, "processes": 1})
+            if c.get("_history"):
+                return W.run_after(c["_history"]["prev"], c, debug=mode["debug"], processes=mode["processes"], trace=True)
             return W.run_config(c, debug=mode["debug"], processes=mode["processes"], trace=True)
 
         return list(ex.map(one, cfgs))
@@ -317,7 +379,8 @@ def survey_workable(events, cfg):
             else:
                 (_, _, _, _, verdict, t, wi, pr, _env_of_object) = w
                 env = cfg_envelope(cfg, e[2])
-                out[id(e)] = env[0] <= t <= env[1] and env[2] <= wi <= env[3] and env[4] <= pr <= env[5]
+                missing = any(x != x for x in (t, wi, pr))
+                out[id(e)] = (not missing) and env[0] <= t <= env[1] and env[2] <= wi <= env[3] and env[4] <= pr <= env[5]
     return out
 
 
@@ -390,8 +453,9 @@ def oracle_c08(ctx, cfg, prog, events, violate):
                     (_, _, _, _, verdict, t, wi, pr, env_obj) = w
                     if env_obj is not None and [float(x) for x in env_obj] != env:
                         violate("C08:wholerun:envelope-not-as-configured", "the method's weather envelope differs from the configured one", info)
-                    inside = env[0] <= t <= env[1] and env[2] <= wi <= env[3] and env[4] <= pr <= env[5]
-                    ctx.count("wholerun:visit-weather-" + ("ok" if inside else "bad"))
+                    missing = any(x != x for x in (t, wi, pr))    # NaN in the weather file: inside no envelope
+                    inside = (not missing) and env[0] <= t <= env[1] and env[2] <= wi <= env[3] and env[4] <= pr <= env[5]
+                    ctx.count("wholerun:visit-weather-" + ("missing" if missing else "ok" if inside else "bad"))
                     ctx.nontrivial.add(("wr-wx", inside, t < env[0] or t > env[1], wi > env[3], pr > env[5]))
                     info["weather"] = w
                     if visited and not inside:
@@ -513,9 +577,18 @@ def run_c08(ctx):
             ctx.traces += 1
             ctx.count("wholerun:configs")
             count_wide(ctx, cfg)
+            count_history(ctx, cfg, res)
     finally:
         for res in results:
             res.cleanup()
+
+
+def count_history(ctx, cfg, res):
+    if cfg.get("_history"):
+        ctx.count("history:" + cfg["_history"]["what"])
+        ctx.nontrivial.add(("history-run", cfg["_history"]["what"]))
+        if getattr(res, "prev_rc", 0) != 0:
+            ctx.count("history:first-run-stopped")
 
 
 def count_wide(ctx, cfg):
@@ -529,7 +602,11 @@ def count_wide(ctx, cfg):
 def replay_c08(ctx, inp):
     cfg = inp["wholerun"]["cfg"]
     mode = cfg.get("_mode", {"debug": True, "processes": 1})
-    res = W.run_config(cfg, debug=mode["debug"], processes=mode["processes"], trace=True)
+    if cfg.get("_history"):
+        print("history: an earlier run in the same folder differs in", cfg["_history"]["what"])
+        res = W.run_after(cfg["_history"]["prev"], cfg, debug=mode["debug"], processes=mode["processes"], trace=True)
+    else:
+        res = W.run_config(cfg, debug=mode["debug"], processes=mode["processes"], trace=True)
     try:
         print("whole run rc", res.rc)
         for tr in res.trace:
@@ -724,6 +801,7 @@ def run_c10(ctx):
                               "%s: %s\n%s" % (type(e).__name__, e, traceback.format_exc()[-800:]))
             ctx.count("wholerun:mode-" + ("pool" if cfg.get("_mode") else "debug"))
             count_wide(ctx, cfg)
+            count_history(ctx, cfg, res)
             ctx.traces += 1
             ctx.count("wholerun:configs")
     finally:
@@ -734,7 +812,11 @@ def run_c10(ctx):
 def replay_c10(ctx, inp):
     cfg = inp["wholerun"]["cfg"]
     mode = cfg.get("_mode", {"debug": True, "processes": 1})
-    res = W.run_config(cfg, debug=mode["debug"], processes=mode["processes"], trace=True)
+    if cfg.get("_history"):
+        print("history: an earlier run in the same folder differs in", cfg["_history"]["what"])
+        res = W.run_after(cfg["_history"]["prev"], cfg, debug=mode["debug"], processes=mode["processes"], trace=True)
+    else:
+        res = W.run_config(cfg, debug=mode["debug"], processes=mode["processes"], trace=True)
     try:
         print("whole run rc", res.rc)
         for tr in res.trace:
